@@ -365,8 +365,7 @@ Definition next_item (s : rst) : option ritem * rst :=
   let fuel := S (S (S (length (r_src s) + length (r_filo s) + length (r_fifo s)))) in
   match next_raw fuel s with
   | (Some (RLine t lab nm a b as it), s1) => split_item t lab nm a b it s1
-  | (Some (RCpp t a b as it), s1) => split_item t None None a b it s1
-  | r => r
+  | r => r          (* comments and preprocessor directives are handed out whole (a ';' in a directive is text) *)
   end.
 
 Definition get_item (s : rst) : option ritem * rst := next_item s.
